@@ -646,6 +646,7 @@ func (w *World) writersObligations(p string) []*Obligation {
 			}
 		}
 		sort.Strings(offenders)
+		_ = seenAllowed
 		o := &Obligation{Name: "writers:" + shortKey(wd.Field), Fn: "writers", Kind: "writers", Tags: wd.Tags, Goal: "true", Src: "only " + strings.Join(wd.Funcs, ", ") + " store to " + shortKey(wd.Field), Status: "trivial"}
 		if len(offenders) > 0 {
 			o.Status, o.Solver = "sat", "syntactic"
@@ -653,6 +654,62 @@ func (w *World) writersObligations(p string) []*Obligation {
 			o.Goal = "false"
 		}
 		out = append(out, o)
+	}
+	out = append(out, w.neverClosedObligations(p)...)
+	return out
+}
+
+// neverClosedObligations: `neverclosed T.f` - no close() in the module is applied to a channel loaded from T.f.
+func (w *World) neverClosedObligations(p string) []*Obligation {
+	if p != "C08" && p != "C12" {
+		return nil
+	}
+	var out []*Obligation
+	for _, gd := range w.cs.Guards {
+		if gd.Kind != "neverclosed" {
+			continue
+		}
+		for _, f := range gd.Fields {
+			var offenders []string
+			for key, fn := range w.funcs {
+				if fn.Blocks == nil {
+					continue
+				}
+				pk := fn.Pkg
+				if pk == nil && fn.Parent() != nil {
+					pk = fn.Parent().Pkg
+				}
+				if pk == nil || !strings.HasPrefix(pk.Pkg.Path(), modPath) {
+					continue
+				}
+				for _, b := range fn.Blocks {
+					for _, ins := range b.Instrs {
+						c, ok := ins.(ssa.CallInstruction)
+						if !ok {
+							continue
+						}
+						bi, ok := c.Common().Value.(*ssa.Builtin)
+						if !ok || bi.Name() != "close" {
+							continue
+						}
+						if u, ok := c.Common().Args[0].(*ssa.UnOp); ok {
+							if fa, ok := u.X.(*ssa.FieldAddr); ok {
+								if fieldClass(fa.X.Type().Underlying().(*types.Pointer).Elem(), fa.Field) == f {
+									offenders = append(offenders, shortKey(key)+" ("+w.prog.Fset.Position(ins.Pos()).String()+")")
+								}
+							}
+						}
+					}
+				}
+			}
+			sort.Strings(offenders)
+			o := &Obligation{Name: "neverclosed:" + shortKey(f), Fn: "neverclosed", Kind: "neverclosed", Tags: []string{"C08", "C12"}, Goal: "true", Src: "no close() is applied to the channel in " + shortKey(f), Status: "trivial"}
+			if len(offenders) > 0 {
+				o.Status, o.Solver, o.Goal = "sat", "syntactic", "false"
+				o.Output = "close() found: " + strings.Join(offenders, "; ")
+			}
+			out = append(out, o)
+		}
 	}
 	return out
 }
